@@ -6,7 +6,7 @@ from vfw.props import fixcase, fixprops
 PROPERTY = "C13"
 LEVEL = "exploration"
 RULE = (
-    "case = (sql, dialect, rule selection) from dialect fixtures <= 4 kB x {all rules, the exact 'sqlfluff format' rule list}, one seeded mutant per fixture, "
+    "case = (sql, dialect, rule selection) from dialect fixtures <= 3 kB under all rules (every 2nd also under the exact 'sqlfluff format' rule list), seeded mutants and comment-injected variants of every 2nd fixture, fix_even_unparsable variants, a quoting sweep and a line-width sweep, "
     "the repo's rule yaml examples (with their own configs) under all rules, lintable Jinja templates, and every corpus input on which whole-file validation is known to reject some rule's fix (with fix_even_unparsable off and on); run through the real Linter.lint_string(fix=True); "
     "precondition: source has zero TMP/LXR/PRS; oracle: the fixed text, linted again with the same config, has zero TMP/LXR/PRS and the fixed tree holds no unparsable node; distinct = content hash + rule set; non-trivial = the fix actually changed the text"
 )
@@ -38,7 +38,7 @@ def rejects():
 
 
 def universe():
-    return fixcase.base_universe(fx_bytes=4000, mx=1, rulesets=("all", "format"), rc_rulesets=("all",), jj=240) + rejects()
+    return fixcase.base_universe(fx_bytes=3000, mx=1, rulesets=("all", "format"), rc_rulesets=("all",), jj=160) + rejects()
 
 
 def cases(tier, seed):
